@@ -112,6 +112,83 @@ def _mk(segs):
     return OSeq(segs)
 
 
+def _idx_name(I, term, predkey):
+    import hashlib
+    return hashlib.md5(("%s|%s" % (I.term_name(term), predkey)).encode()).hexdigest()[:10]
+
+
+def found_record(I, term, pred):
+    """the first element of the opaque sequence `term` that satisfies `pred`, if any: an unknown flag `found`, an
+    unknown position idx (0 <= idx < len) and a generic element that satisfies pred.  One record per (side, sequence,
+    predicate): the function under verification and the reference get structurally equal, separate element objects."""
+    predkey = fkey(I, pred)
+    tag = _idx_name(I, term, predkey)
+    recs = I.__dict__.setdefault("found_records", {})
+    key = (getattr(I, "side", "fn"), tag)
+    if key not in recs:
+        found = z3.Bool("found<%s>" % tag)
+        idx = z3.Int("idx<%s>" % tag)
+        elem = elem_of(I, term, "hit:%s" % tag)
+        recs[key] = dict(found=found, idx=idx, elem=elem, term=term, tag=tag, pred=pred, assumed=False)
+    return recs[key]
+
+
+def _assume_found(I, rec):
+    if not rec["assumed"]:
+        rec["assumed"] = True
+        I.ctx.assume(rec["idx"] >= 0)
+        I.ctx.assume(rec["idx"] < I.seq_len_term(rec["term"]))
+        if not I.truth(I.call(rec["pred"], [rec["elem"]])):
+            raise Infeasible()
+
+
+def _single_opaque(xs):
+    return isinstance(xs, OSeq) and len(xs.segs) == 1 and xs.segs[0][0] == "o"
+
+
+def i_first_index(I, args, kwargs):
+    pred, xs = args
+    if not isinstance(xs, OSeq):
+        for i, x in enumerate(I.iter_values(xs)):
+            if I.truth(I.call(pred, [x])):
+                return i
+        return None
+    if not _single_opaque(xs):
+        raise Unsupported("first_index over a sequence with explicit items and an opaque part")
+    rec = found_record(I, xs.segs[0][1], pred)
+    if I.ctx.branch(rec["found"]):
+        _assume_found(I, rec)
+        from .values import SInt
+        return SInt(rec["idx"])
+    return None
+
+
+def i_seq_at(I, args, kwargs):
+    return I.getitem(args[0], args[1])
+
+
+def i_seq_remove_at(I, args, kwargs):
+    xs, i = args
+    if isinstance(xs, OSeq):
+        r = OSeq(list(xs.segs))
+        I.oseq_del_at(r, i)
+        return r
+    r = list(xs)
+    del r[i]
+    return r
+
+
+def i_seq_replace_at(I, args, kwargs):
+    xs, i, v = args
+    if isinstance(xs, OSeq):
+        r = OSeq(list(xs.segs))
+        I.oseq_set_at(r, i, v)
+        return r
+    r = list(xs)
+    r[i] = v
+    return r
+
+
 def i_opaque(I, args, kwargs):
     """opaque(tag, *args): the result of an unmodelled computation, a function of its arguments only
     (used by the specs of callees that are trusted / verified elsewhere)"""
@@ -126,7 +203,8 @@ def i_ghost_call(I, args, kwargs):
     return None
 
 
-INTRINSICS = {"ghost_call": i_ghost_call, "seq_map": i_seq_map, "seq_filter": i_seq_filter, "seq_flatmap": i_seq_flatmap, "opaque": i_opaque}
+INTRINSICS = {"ghost_call": i_ghost_call, "first_index": i_first_index, "seq_at": i_seq_at, "seq_remove_at": i_seq_remove_at, "seq_replace_at": i_seq_replace_at,
+              "seq_map": i_seq_map, "seq_filter": i_seq_filter, "seq_flatmap": i_seq_flatmap, "opaque": i_opaque}
 
 
 # ------------------------------------------------------------------ loop rule
@@ -185,6 +263,8 @@ def loop_handler(I, node, it, env):
         raise Unsupported("for/else over opaque sequence")
     C, inv_ref, temps = spec["contract"], spec["inv"], spec.get("temps", ())
     term = it.segs[0][1]
+    if spec.get("kind") == "search":
+        return search_loop(I, node, it, enum, env, spec, term, fref, ordinal)
     I.loop_counter = getattr(I, "loop_counter", 0) + 1
     tag = "%s.%d#%d" % (fref.node.name, ordinal, I.loop_counter)
 
@@ -276,6 +356,74 @@ def loop_handler(I, node, it, env):
     final = inv(it, [], entry)
     for expr, v in final.items():
         _assign_expr(I, expr, v, env)
+    return True
+
+
+def search_loop(I, node, it, enum, env, spec, term, fref, ordinal):
+    """`for [i,] x in xs: if cond(x): <effects>; break` over an opaque sequence.
+    (step)  for a generic element: the body breaks exactly when the contract's predicate holds, and an element that
+            does not match changes nothing;
+    (exit)  the loop's net effect is the body executed once on the first matching element (an unknown position with a
+            generic element satisfying the predicate), or nothing when no element matches."""
+    C = spec["contract"]
+    I.loop_counter = getattr(I, "loop_counter", 0) + 1
+    tag = "%s.%d#%d" % (fref.node.name, ordinal, I.loop_counter)
+    reads = {}
+    for expr in spec.get("reads", ()):
+        reads[expr] = _eval_expr(I, expr, env)
+    pred = I.call_ref(spec["inv"], [C.case, reads], {}, top=True)       # the predicate closure
+    from .engine import describe, state_eq
+    which = I.ctx.choose(2, "search:" + tag)
+    if which == 0:
+        x = elem_of(I, term, "x:" + tag)
+        n = I.ctx.fresh("int", "n")
+        I.ctx.assume(n >= 0)
+        from .values import SInt
+        snap_memo = {}
+        before = {k: I.deepcopy(v, snap_memo) for k, v in env.vars.items() if not _is_target(node.target, k)}
+        x_before = I.deepcopy(x, {})
+        I.assign(node.target, (SInt(n), x) if enum is not None else x, env)
+        matches = I.truth(I.call(pred, [x_before]))
+        broke = False
+        try:
+            I.exec_block(node.body, env)
+        except BreakEx:
+            broke = True
+        except ContinueEx:
+            pass
+        except ReturnEx:
+            raise LoopObligation("search-step:" + tag, False, "return inside a search loop")
+        if broke != matches:
+            raise LoopObligation("search-step:" + tag, False, dict(problem="the loop %s on an element for which the contract's predicate is %s" % ("breaks" if broke else "does not break", matches),
+                                                                      element=describe(x_before)))
+        if broke:
+            raise LoopObligation("search-step:" + tag, True, None)
+        goals, detail = [], {}
+        g = state_eq(I, x, x_before)
+        goals.append(g)
+        for k, v in before.items():
+            gk = state_eq(I, env.vars.get(k), v)
+            goals.append(gk)
+            if gk is not True:
+                detail["frame:" + k] = dict(after_body=describe(env.vars.get(k)), before=describe(v))
+        raise LoopObligation("search-step:" + tag, I.and_all(goals), detail or None)
+    # (exit)
+    rec = found_record(I, term, pred)
+    if I.ctx.branch(rec["found"]):
+        _assume_found(I, rec)
+        from .values import SInt
+        y = rec["elem"]
+        y_before = describe(y)
+        I.assign(node.target, (SInt(rec["idx"]), y) if enum is not None else y, env)
+        try:
+            I.exec_block(node.body, env)
+            raise LoopObligation("search-exit:" + tag, False, "the body does not break on an element that satisfies the predicate")
+        except BreakEx:
+            pass
+        if describe(y) != y_before:
+            I.oseq_set_at(it, SInt(rec["idx"]), y)
+    elif node.orelse:
+        I.exec_block(node.orelse, env)
     return True
 
 
